@@ -1,5 +1,5 @@
 import EdpVerif.Basic.Bytes
-import EdpVerif.Generated.Misc
+import EdpVerif.Generated.MiscC05
 /-!
 Model of crates/edp_client/src/framing.rs (`MessageFramer`, `MessageDeframer`), of the transport-facing
 contract of Tokio's `read_exact` / `read_u16` / `write_all` / `write_u16`, and of the second copy of the
